@@ -67,6 +67,8 @@ class Module:
         self.modname = modname
         self.src = src
         self.tree = ast.parse(src, filename=relpath)
+        from . import alpha
+        self.renames = alpha.normalise(relpath, self.tree)
         self.imports = {}     # local alias -> fully qualified dotted name
         self.functions = {}   # qualname -> FunctionInfo
         self.classes = {}     # name -> ClassInfo
@@ -364,8 +366,9 @@ class Program:
     def stats(self):
         nf = sum(len(m.functions) for m in self.modules.values())
         nc = sum(len(m.classes) for m in self.modules.values())
+        rn = sum(len(m.renames) for m in self.modules.values())
         return {"modules": len(self.modules), "functions": nf, "classes": nc,
-                "excluded": sorted(self.excluded)}
+                "excluded": sorted(self.excluded), "locals_alpha_normalised": rn}
 
 
 POOL_PRIMS = {"map", "imap", "imap_unordered", "uimap", "amap", "map_async", "starmap",
